@@ -20,6 +20,9 @@ structure Facts where
   mixinSkipsEmptyIDs : Bool
   /-- `mergeSwaggerProps` merges external docs only when the mixin has some (`m.ExternalDocs != nil`) -/
   mixinExtDocsGuard : Bool
+  /-- `SafeParamsFor` / `SafeParametersFor` reach the paths map and the operation only through
+      nil-safe accessors (no `s.spec.Paths.Paths`, no `s.operations[..][..].Parameters`) -/
+  paramsNilSafe : Bool
   /-- PathItem fields tested by `SafeParametersFor`, in source order -/
   paramsForMethods : List String
   deriving Repr
@@ -36,6 +39,7 @@ def reference : Facts where
   mixinMethods := ["get", "put", "post", "delete", "head", "patch", "options"]
   mixinSkipsEmptyIDs := true
   mixinExtDocsGuard := true
+  paramsNilSafe := true
   paramsForMethods := ["get", "head", "options", "post", "patch", "put", "delete"]
 
 end Facts
